@@ -329,6 +329,18 @@ Section TableRead.
     - apply IH; [exact ND'|]. cbn in L. lia.
   Qed.
 
+  Lemma read_after_write_nth (dz : D o) (d0 : indV) (l : list indV) : forall ds (t : cdtab o) j,
+    NoDup (map uid l) -> length ds = length l -> j < length l ->
+    write_cd o t l ds (uid (nth j l d0)) = Some (nth j ds dz).
+  Proof.
+    induction l as [|x l IH]; intros ds t j ND L Lj; [cbn in Lj; lia|].
+    destruct ds as [|d ds]; [discriminate L|].
+    inversion ND as [|? ? Hn ND']; subst. rewrite write_cd_cons.
+    destruct j as [|j]; cbn [nth].
+    - rewrite write_cd_other by exact Hn. unfold cd_upd. now rewrite Nat.eqb_refl.
+    - apply IH; [exact ND'| cbn in L; lia | cbn in Lj; lia].
+  Qed.
+
   Lemma write_fronts_snoc (t : cdtab o) init (lastf : list indV) :
     write_fronts o t (init ++ [lastf]) = write_cd o (write_fronts o t init) lastf (assign_crowding o lastf).
   Proof. unfold write_fronts. now rewrite fold_left_app. Qed.
